@@ -14,6 +14,8 @@ CFG = {'assumptions': ["every position, size and n stays below 2^31 - 64 (Go's i
         'bitmap.Mask': 'bitmap.Mask[i], bitmap.RMask[i]',
         'bitmap.Bit': 'bitmap.MaskUpto[i], bitmap.RMaskUpto[i], bitmap.Bit[i], bitmap.RBit[i]',
         'bitmap.Fmt': 'bitmap.Fmt on an integer / a slice of integers of every kind (and on non-integer types)',
+        'bitmap.Of/query': 'bitmap.Of, then IndexRank64+Rank64, IndexRank128+Rank128, NextOne, PrevOne on the result',
+        'bitmap.Builder/query': 'a Builder history, then the same four queries on Builder.Words',
         'bitmap.Builder': 'bitmap.NewBuilder + Builder.Extend / Builder.Set history, Words and Offset after every call'},
  'rule': 'cases = Of: every subset of {0,1,62,63,64,65,127,128} x 18 choices of n (absent, negative down to -2^31, smaller, last+1, '
          'larger, word-aligned) + random ascending lists in 5 styles (dense, small gaps, word boundaries, gaps > 3 '
@@ -24,6 +26,7 @@ CFG = {'assumptions': ["every position, size and n stays below 2^31 - 64 (Go's i
          'below/at/above Offset, even and negative values), Words and Offset compared after every call; widening: every entry of Mask/RMask/MaskUpto/RMaskUpto/Bit/RBit '
          'and the first indices outside (panic); Fmt on every uint8 and int8 value, on 1/2/4/8-byte signed and unsigned '
          'integers single and in slices of 0..5 (boundaries, single bits, complements, random), on Of(...) bitmaps, on '
-         'non-integer types. Non-trivial: '
+         'non-integer types; Rank64/Rank128/NextOne/PrevOne on Of(ps,n) and on Builder.Words (i at / next to a set position, on word '
+         'edges, random; e = end, = i, i+1..i+65, random). Non-trivial: '
          'non-empty position list / bitmap with a 1-bit / probed word neither 0 nor all-ones / >1 segment with a '
          'position / >1 call; distinct = distinct (op,args)'}
